@@ -22,16 +22,9 @@ class EvaluatorContext(ast_nodes.EvalContext):
 
     def eval_cell(self, addr):
         # Memoize per context, so the values die with the context.
-        if addr in self._cell_values:
-            return self._cell_values[addr]
-
-        # Check for a cycle.
-        if addr in self.seen:
-            raise RuntimeError(
-                f'Cycle detected for {addr}:\n- ' + '\n- '.join(self.seen))
-        self.seen.append(addr)
-
-        self._cell_values[addr] = self.evaluator.evaluate(addr, None)
+        if addr not in self._cell_values:
+            self.seen.append(addr)
+            self._cell_values[addr] = self.evaluator.evaluate(addr, None)
         return self._cell_values[addr]
 
 
@@ -43,6 +36,8 @@ class Evaluator:
         self.namespace = namespace \
             if namespace is not None else xl.FUNCTIONS.copy()
         self.cache_count = 0
+        # Addresses of the formula cells currently being evaluated.
+        self._eval_stack = []
 
     def _get_context(self, ref):
         return EvaluatorContext(self, ref)
@@ -87,6 +82,12 @@ class Evaluator:
         #    (Note: Range nodes will automatically evaluate all their
         #           dependencies.)
         context = context if context is not None else self._get_context(addr)
+        # Check for a cycle.
+        if addr in self._eval_stack:
+            raise RuntimeError(
+                f'Cycle detected for {addr}:\n- '
+                + '\n- '.join(self._eval_stack))
+        self._eval_stack.append(addr)
         try:
             value = cell.formula.ast.eval(context)
         except Exception as err:
@@ -94,6 +95,8 @@ class Evaluator:
                 f"Problem evaluating cell {addr} formula "
                 f"{cell.formula.formula}: {repr(err)}"
             ).with_traceback(sys.exc_info()[2])
+        finally:
+            self._eval_stack.pop()
 
         # 4. Update the cell value.
         #    Note for later: If an array is returned, we should distribute the
